@@ -142,6 +142,31 @@ CHECKS.update({
          "DESIGN.md §3 C13"),
 })
 
+
+# Additions after the second round of seeded changes (appended to the coverage text of each check).
+EXTRA = {
+ "C01": " Also: real keys whose true digest lies outside fd00::/8, and victims that already know the honest owner of an address when the same address arrives under another real key (hop record and ping header).",
+ "C02": " The appendix is also changed through the API (SetAppendixData by a forwarder that parsed the frame off a link with link margins, and by the sender on its sealed frame) to sizes that stay in place or move the frame into every bigger buffer tier.",
+ "C03": " Histories also contain events of the session itself: the 32-bit wrap of one direction's regular counter with priority traffic in both directions, and key-setup attempts with hostile key-exchange values; in-order first deliveries must be accepted, every second delivery refused.",
+ "C04": " A scripted client (messages written by hand with the peer's real keys) plays a router that names the universe but lacks the secret and mirrors the victim's own challenge/universe auth, and a peer that completes two parallel connections one after the other (the second link must be refused or sealed).",
+ "C05": " Link frames are also reflected back to their own sender.",
+ "C06": " Service URLs with out-of-range ports and other ill-formed services the parser accepts must open nothing beyond the well-formed services; a refused flow is sent again after authentic error pings of every non-key kind and a pong request from the sender and a third router.",
+ "C07": " After the authentic frame: immediate replays with a changed message or signature byte; for announcements a fresh one extended by a hop record naming a known router under a foreign key.",
+ "C08": " Announcements with hop records are also delivered on the link of their origin.",
+ "C10": " Frames injected with TTL 0; originated requests (signed and encrypted) of every message size around each pooled-buffer tier must leave with the link margins and arrive 2 hops away.",
+ "C11": " Best-first is also checked against delay sums computed by the monitor from the hops (paths whose hop delays sum beyond 16 bits included).",
+ "C12": " Paths are also rebuilt in place on a struct that already carries blocks (route refresh); the rebuilt path must traverse exactly and the copy handed out earlier must be unchanged.",
+ "C13": " The victim's own requests (keep-alive pong, routed pong, key setup) are answered once, repeatedly (separately signed) and with hostile bodies; correctly signed handshake responses/acks with hostile bodies; race-detector part: one peer opening two connections at once, again and again.",
+ "C14": " Also from a prior completed setup with traffic in both directions after which one router lost its keys and initiates again (the other re-keys its used session in place).",
+ "C16": " Two of the five identities have addresses from which no switch label can be derived (their links get random labels).",
+ "C17": " Builds the builder must refuse (empty/oversized message, switch block, appendix) are part of the operation alphabet.",
+ "C19": " Mappings stored under names outside .myco (incl. names merely ending in 'myco') must not make those names answerable; lookups run concurrently with mapping updates (plain build: answers unchanged, no fatal error; race-detector build anchored on the store and the resolver).",
+ "C20": " One child mode runs under taskset on a single CPU (runtime.NumCPU()==1).",
+}
+ENGINE_EXTRA = {"C19": " + E5 race detector", "C13": " + E5 race detector"}
+TECH_EXTRA = {"C19": "; Go race detector on lookups concurrent with mapping updates", "C13": "; Go race detector on simultaneous connections of one peer (anchors: key-exchange state, setup state machine, ping handlers)",
+              "C04": "; scripted client with real keys (universe-auth mirror, sequential completion of two parallel connections)", "C03": "; session-event histories (counter wrap, hostile key setups)"}
+
 NOT_YET = "check not implemented yet in this revision of /verif (work in progress; see DESIGN.md §8)"
 
 def main():
@@ -150,6 +175,9 @@ def main():
         if pid not in CHECKS:
             continue
         eng, cat, tech, text, note, ref = CHECKS[pid]
+        text += EXTRA.get(pid, "")
+        eng += ENGINE_EXTRA.get(pid, "")
+        tech += TECH_EXTRA.get(pid, "")
         checks.append({
             "property_id": pid,
             "quick_cmd": f"./check {pid} quick",
